@@ -15,6 +15,28 @@ From GZ Require Import C08.Model C08.Spec C08.KModel.
 Import ListNotations.
 Open Scope Z_scope.
 
+(* a string given to a slice field: the JSON array it spells, elements at the element's own kind *)
+Fixpoint decode_str_elem_ptr (e : ftype) (b : bool) : option gval :=
+  match e with
+  | TPrim KBool => Some (VBool b)
+  | TPtr e' => option_map VPtr (decode_str_elem_ptr e' b)
+  | _ => None
+  end.
+
+Definition decode_str_elem (e : ftype) (v : jv) : option gval :=
+  match e with
+  | TPrim k => decode_elem_prim false k v
+  | TPtr e' => match v with JBool b => option_map VPtr (decode_str_elem_ptr e' b) | _ => None end
+  | _ => None
+  end.
+
+Definition decode_str_slice (e : ftype) (s : string) : option gval :=
+  match json_value s with
+  | Some (JArr l) => option_map VSlice (omapM (decode_str_elem e) l)
+  | Some JNull => Some (VSlice [])
+  | _ => None
+  end.
+
 Section Spec.
 Variable kc : kcfg.
 
@@ -23,7 +45,12 @@ Fixpoint decodeK_present (env : list obj) (fs : bool) (t : ftype) (v : jv) {stru
   | TPrim k => decode_prim fs k v
   | TPtr t' => option_map VPtr (decodeK_present env fs t' v)
   | TStruct fl => match v with JObj o => option_map VStruct (decodeK_fields env fl o) | _ => None end
-  | TSlice e => match v with JArr l => decode_slice (decodeK_elem false e) (zero e) l | _ => None end
+  | TSlice e =>
+    match v with
+    | JArr l => decode_slice (decodeK_elem false e) (zero e) l
+    | JStr s => decode_str_slice e s
+    | _ => None
+    end
   | TMap e => match v with JObj o => decode_map (decodeK_elem true e) o | _ => None end
   end
 
